@@ -6,6 +6,8 @@ CONSTANTS
   MaxGen = 3
 SPECIFICATION Spec
 CONSTRAINT Bound
+CONSTRAINT Mark
+POSTCONDITION AllActionsTaken
 INVARIANTS TypeOK RootFinishesOnce DocumentedResult ChildStartOrder NoRestartWhileUnderway NothingLeftRunning
   NoStaleNotification FinalOncePerRun ResetIsFresh PauseHoldsResults
 CHECK_DEADLOCK FALSE
